@@ -715,9 +715,94 @@ fn wide_entries_keep_their_capacity(rep: &mut Report) {
     rep.set("writer_model_wide_entries", json!(runs));
 }
 
+/// A recorder that, when told about an overflow, appends one more entry to the same queue on the
+/// same thread (a metrics pipeline or tracing layer that feeds back into the queue it observes);
+/// a nested report does not append again.
+#[derive(Clone)]
+struct FeedbackRecorder {
+    counts: Counts,
+    producer: Arc<Mutex<Option<Producer<Tag>>>>,
+    depth: Arc<std::sync::atomic::AtomicUsize>,
+    next_id: Arc<std::sync::atomic::AtomicU64>,
+}
+struct FeedbackCell(String, FeedbackRecorder);
+impl metrics_024::CounterFn for FeedbackCell {
+    fn increment(&self, v: u64) {
+        use std::sync::atomic::Ordering::SeqCst;
+        let r = &self.1;
+        *r.counts.0.lock().unwrap().entry(self.0.clone()).or_default() += v;
+        if self.0 == "metrique_queue_overflows" && r.depth.fetch_add(1, SeqCst) == 0 {
+            let p = r.producer.lock().unwrap().clone();
+            if let Some(p) = p {
+                p.push(Tag(r.next_id.fetch_add(1, SeqCst)));
+            }
+        }
+        if self.0 == "metrique_queue_overflows" {
+            r.depth.fetch_sub(1, SeqCst);
+        }
+    }
+    fn absolute(&self, v: u64) {
+        self.1.counts.0.lock().unwrap().insert(self.0.clone(), v);
+    }
+}
+impl metrics_024::Recorder for FeedbackRecorder {
+    fn describe_counter(&self, _: metrics_024::KeyName, _: Option<metrics_024::Unit>, _: metrics_024::SharedString) {}
+    fn describe_gauge(&self, _: metrics_024::KeyName, _: Option<metrics_024::Unit>, _: metrics_024::SharedString) {}
+    fn describe_histogram(&self, _: metrics_024::KeyName, _: Option<metrics_024::Unit>, _: metrics_024::SharedString) {}
+    fn register_counter(&self, key: &metrics_024::Key, _: &metrics_024::Metadata<'_>) -> metrics_024::Counter {
+        metrics_024::Counter::from_arc(Arc::new(FeedbackCell(key.name().to_string(), self.clone())))
+    }
+    fn register_gauge(&self, _: &metrics_024::Key, _: &metrics_024::Metadata<'_>) -> metrics_024::Gauge {
+        metrics_024::Gauge::noop()
+    }
+    fn register_histogram(&self, _: &metrics_024::Key, _: &metrics_024::Metadata<'_>) -> metrics_024::Histogram {
+        metrics_024::Histogram::noop()
+    }
+}
+
+/// C09, the overflow counter with re-entrancy: every overflow report appends one more entry to
+/// the same (full) queue from inside the report. Whatever is appended and never reaches the
+/// stream has been discarded, and the counter says how many that is. Capacities 1..=5, 0..=12
+/// appends by the caller, writer stalled until the shutdown drain.
+fn overflow_counter_with_feedback(rep: &mut Report) {
+    use std::sync::atomic::Ordering::SeqCst;
+    let mut cases = 0u64;
+    for cap in 1usize..=5 {
+        for appends in 0u64..=12 {
+            cases += 1;
+            let seen = Arc::new(Mutex::new(Vec::new()));
+            let rec = FeedbackRecorder { counts: Counts::default(), producer: Default::default(), depth: Default::default(), next_id: Arc::new(std::sync::atomic::AtomicU64::new(1000)) };
+            let (producer, writer) = BackgroundQueueBuilder::new()
+                .capacity(cap)
+                .metrics_recorder_local::<dyn metrics_024::Recorder, _>(rec.clone())
+                .__verif_build_unstarted::<IdStream, Tag>(IdStream(seen.clone()));
+            *rec.producer.lock().unwrap() = Some(producer.clone());
+            for id in 0..appends {
+                producer.push(Tag(id));
+            }
+            *rec.producer.lock().unwrap() = None;
+            writer.shut_down(true);
+            let seen = seen.lock().unwrap().clone();
+            let fed_back = rec.next_id.load(SeqCst) - 1000;
+            let appended = appends + fed_back;
+            let discarded = appended - seen.len() as u64;
+            let overflows = rec.counts.0.lock().unwrap().get("metrique_queue_overflows").copied().unwrap_or(0);
+            if overflows != discarded {
+                rep.violation(
+                    "writer:overflow-counter:report-feeds-back-into-the-queue",
+                    format!("capacity {cap}: {appends} entries appended by the caller and {fed_back} from inside overflow reports, {} reached the stream, so {discarded} were discarded; the overflow counter says {overflows}", seen.len()),
+                    json!({"capacity": cap, "appended_by_caller": appends, "appended_from_inside_overflow_reports": fed_back, "reached_the_stream": seen, "overflow_counter": overflows}),
+                );
+            }
+        }
+    }
+    rep.set("writer_model_overflow_reports_feeding_back", cases);
+}
+
 pub fn run(prop: &'static str) {
     let mut rep = Report::from_args(prop, "model_checking");
     if prop == "C09" && rep.replay.is_none() {
+        overflow_counter_with_feedback(&mut rep);
         wide_entries_keep_their_capacity(&mut rep);
     }
     if prop == "C01" && rep.replay.is_none() {
